@@ -80,3 +80,36 @@ Definition within_limits (fs : list field) : bool :=
 
 Definition comparison_code (c : comparison) : Z :=
   match c with Lt => (-1)%Z | Eq => 0%Z | Gt => 1%Z end.
+
+(* --- builder histories: every tuple a builder produces is NewTuple of
+   exactly the fields put since the last Build / BuildPrefix / Recycle --- *)
+(* [before] = the operations that precede the build, most recent first *)
+Fixpoint since_reset (before : list bop) : list (nat * bcell) :=
+  match before with
+  | [] => []
+  | OPut i c :: r => (i, c) :: since_reset r
+  | OBuildPrefixNoRecycle _ :: r => since_reset r
+  | _ :: _ => []
+  end.
+
+(* the most recent put on column i, NULL if there was none *)
+Definition slot_of (log : list (nat * bcell)) (i : nat) : bcell :=
+  match find (fun p => Nat.eqb (fst p) i) log with
+  | Some p => snd p
+  | None => BNull
+  end.
+Definition expected_slots (n : nat) (log : list (nat * bcell)) : list bcell := map (slot_of log) (seq 0 n).
+
+Definition expected_out (target : N) (n : nat) (before : list bop) (op : bop) : list bytes :=
+  let slots := expected_slots n (since_reset before) in
+  match op with
+  | OBuild => [build target slots]
+  | OBuildPrefix k | OBuildPrefixNoRecycle k => [new_tuple (firstn k (map (held target) slots))]
+  | _ => []
+  end.
+
+Fixpoint spec_outputs (target : N) (n : nat) (before ops : list bop) : list bytes :=
+  match ops with
+  | [] => []
+  | op :: r => expected_out target n before op ++ spec_outputs target n (op :: before) r
+  end.
